@@ -425,6 +425,10 @@ fn guarded<T>(f: impl FnOnce() -> Result<T, ide::Cancelled>, show: impl FnOnce(T
 /// every answer of the public API on a workspace state, keyed by "<file>@<offset>:<query>"; `rev` asks in the opposite order
 fn dump_answers(host: &AnalysisHost, ws: &Value, rev: bool) -> std::collections::BTreeMap<String, Value> {
     let a = host.snapshot();
+    dump_answers_on(&a, ws, rev)
+}
+
+fn dump_answers_on(a: &ide::Analysis, ws: &Value, rev: bool) -> std::collections::BTreeMap<String, Value> {
     let mut out = std::collections::BTreeMap::new();
     let mut files: Vec<&Value> = ws["files"].as_array().unwrap().iter().collect();
     if rev {
@@ -448,9 +452,16 @@ fn dump_answers(host: &AnalysisHost, ws: &Value, rev: bool) -> std::collections:
                 guarded(|| a.syntax_highlight(file, None), |hs| Value::Array(hs.iter().map(|h| json!([u32::from(h.range.start()), u32::from(h.range.end()), format!("{:?}", h.tag)])).collect())),
             );
             // ranged requests whose window starts / ends strictly inside a tagged identifier
-            let tagged: Vec<(u32, u32)> = match a.syntax_highlight(file, None) {
-                Ok(hs) => hs.iter().map(|h| (u32::from(h.range.start()), u32::from(h.range.end()))).collect(),
-                Err(_) => Vec::new(),
+            let tagged: Vec<(u32, u32)> = match panic::catch_unwind(panic::AssertUnwindSafe(|| a.syntax_highlight(file, None))) {
+                Ok(Ok(hs)) => hs.iter().map(|h| (u32::from(h.range.start()), u32::from(h.range.end()))).collect(),
+                Ok(Err(_)) => {
+                    out.insert(format!("{id}:semantic_windows"), json!("<cancelled>"));
+                    return;
+                }
+                Err(_) => {
+                    out.insert(format!("{id}:semantic_windows"), json!("<panic>"));
+                    return;
+                }
             };
             let len = text.len() as u32;
             let mut windows = Vec::new();
@@ -464,7 +475,11 @@ fn dump_answers(host: &AnalysisHost, ws: &Value, rev: bool) -> std::collections:
                     windows.push(json!([ws, we, got]));
                 }
             }
-            out.insert(format!("{id}:semantic_windows"), Value::Array(windows));
+            if windows.iter().any(|w| w[2] == "<cancelled>") {
+                out.insert(format!("{id}:semantic_windows"), json!("<cancelled>"));
+            } else {
+                out.insert(format!("{id}:semantic_windows"), Value::Array(windows));
+            }
         };
         if rev {
             file_level(&mut out);
@@ -568,6 +583,70 @@ fn history(req: &Value) -> Value {
     json!({"diffs": diffs, "answers": answers, "panics": panics})
 }
 
+
+/// C12: {"before": ws, "after": ws, "threads": k, "delays_us": [d..]} - for every delay: a fresh host loaded with `before`, k threads each
+/// asking every public query on their own snapshot, the main thread applying the delta to `after` d microseconds after they started.
+/// Every answer of a thread must be the pre-change answer or a cancellation; the change must complete promptly; a snapshot taken
+/// afterwards must answer like a fresh analysis of `after`.
+fn isolation(req: &Value) -> Value {
+    let before = &req["before"];
+    let after = &req["after"];
+    let k = req["threads"].as_u64().unwrap_or(2) as usize;
+    let mut ref_host = AnalysisHost::new();
+    ref_host.apply_change(state_change(before, None, true));
+    let pre = dump_answers(&ref_host, before, false);
+    let mut fresh_after = AnalysisHost::new();
+    fresh_after.apply_change(state_change(after, None, true));
+    let post = dump_answers(&fresh_after, after, false);
+    let mut problems = Vec::new();
+    let mut cancelled = 0usize;
+    let mut answered = 0usize;
+    let mut max_apply_ms = 0u128;
+    for d in req["delays_us"].as_array().unwrap() {
+        let d = d.as_u64().unwrap();
+        let mut host = AnalysisHost::new();
+        host.apply_change(state_change(before, None, true));
+        let snaps: Vec<ide::Analysis> = (0..k).map(|_| host.snapshot()).collect();
+        let results: Vec<std::collections::BTreeMap<String, Value>> = std::thread::scope(|sc| {
+            let mut hs = Vec::new();
+            for (t, a) in snaps.into_iter().enumerate() {
+                let rev = t % 2 == 1;
+                hs.push(sc.spawn(move || dump_with(&a, before, rev)));
+            }
+            std::thread::sleep(std::time::Duration::from_micros(d));
+            let t0 = std::time::Instant::now();
+            host.apply_change(state_change(after, Some(before), false));
+            let ms = t0.elapsed().as_millis();
+            if ms > max_apply_ms {
+                max_apply_ms = ms;
+            }
+            hs.into_iter().map(|h| h.join().unwrap_or_default()).collect()
+        });
+        for (t, r) in results.iter().enumerate() {
+            for (key, v) in r.iter() {
+                if v == "<cancelled>" {
+                    cancelled += 1;
+                } else if Some(v) == pre.get(key) {
+                    answered += 1;
+                } else if problems.len() < 6 {
+                    problems.push(json!({"delay_us": d, "thread": t, "key": key, "got": v, "pre_change": pre.get(key), "post_change": post.get(key)}));
+                }
+            }
+        }
+        let now = dump_answers(&host, after, false);
+        for (key, v) in post.iter() {
+            if now.get(key) != Some(v) && problems.len() < 6 {
+                problems.push(json!({"delay_us": d, "thread": "after", "key": key, "got": now.get(key), "fresh": v}));
+            }
+        }
+    }
+    json!({"problems": problems, "answered": answered, "cancelled": cancelled, "max_apply_ms": max_apply_ms as u64})
+}
+
+fn dump_with(a: &ide::Analysis, ws: &Value, rev: bool) -> std::collections::BTreeMap<String, Value> {
+    dump_answers_on(a, ws, rev)
+}
+
 /// every answer of the public API on one workspace state (same shape as a `history` state) -> {"dump": {key: answer}}
 fn answers(req: &Value) -> Value {
     let mut host = AnalysisHost::new();
@@ -602,6 +681,7 @@ fn main() {
             "renameall" => renameall(&req),
             "history" => history(&req),
             "answers" => answers(&req),
+            "isolation" => isolation(&req),
             _ => json!({"error": "unknown command"}),
         });
         let out = match res {
